@@ -38,9 +38,9 @@ func init() {
 		},
 		Exhaustive: func(tier string) string {
 			if tier == "thorough" {
-				return "all strings of length<=5 over the 18-unit alphabet x all 288 configurations; all strings of length<=3 over the 36-unit alphabet x all 288 configurations. Everything else is sampled."
+				return "all strings of length<=5 over the 18-unit alphabet x all 288 configurations; all strings of length<=3 over the 46-unit alphabet x all 288 configurations, length 4 x 36 configurations (parser side complete, renderer flags rotating). Everything else is sampled."
 			}
-			return "all strings of length<=4 over the 14-unit alphabet x 16 seed-chosen configurations; all strings of length<=2 over the 36-unit alphabet x all 288 configurations. Everything else is sampled."
+			return "all strings of length<=4 over the 14-unit alphabet x 16 seed-chosen configurations; all strings of length<=2 over the 46-unit alphabet x all 288 configurations, length 3 x 36 configurations (parser side complete, renderer flags rotating). Everything else is sampled."
 		},
 	})
 }
@@ -205,8 +205,21 @@ func runC01(c *core.Ctx) {
 		c.Count("wide_short_strings", 1)
 	}
 
+	// 2b. wide alphabet, one unit longer, x the 36 parser-side configurations with rotating renderer flags
+	n2b := wl.ShortCount(len(wl.AlphabetWide), wideLen+1)
+	for i := n2; i < n2b; i++ {
+		if !c.Mine(i) {
+			continue
+		}
+		src := []byte(wl.ShortAt(wl.AlphabetWide, wideLen+1, i))
+		for e := 0; e < 36; e++ {
+			c01Check(c, pool, all[e*8+(i+e)%8], src, false)
+		}
+		c.Count("wide_short_strings_36cfg", 1)
+	}
+
 	// 3. soup / corpus / mutants x 8 random configurations (CJK sets over-weighted)
-	n3 := c.PerShard(c.N(40000, 700000))
+	n3 := c.PerShard(c.N(120000, 1500000))
 	for i := 0; i < n3; i++ {
 		src := wl.Mix(r, corpus)
 		if i%5 == 0 {
